@@ -53,4 +53,45 @@ CLAIMS = {
                      'specification, aggregate-dataflow and bounds-shape '
                      'rules over the AST',
     },
+    'C02': {
+        'text': 'Abstractly evaluates Table.to_json in both modes (streamed '
+                'direct_io and returned string) into a template of literal '
+                'and dynamic pieces and decides: every dynamic text that '
+                'reaches the document passes json.dumps (or is a number / ISO '
+                'timestamp) - so no character in ids, metadata, table id, '
+                'type or generated-by can break the JSON; matrix entries are '
+                'formatted only by round-trip-safe conversions and dropped '
+                'only when equal to 0; both modes emit the same top-level '
+                'members with the same templates; the keys and constants '
+                'written are those the reader reads and the validator '
+                'accepts; dumps is json.dumps with the numpy-aware encoder. '
+                'Necessary conditions for the round trip, decided for all '
+                'tables at once; comma/bracket placement for every runtime '
+                'shape and equality of parsed values are not decided.',
+        'note': 'Trusted: json.dumps escaping, repr(float) round-trips, %f '
+                'keeps six decimals; the abstract evaluator sa/emit.py.',
+        'technique': 'static analysis: abstract interpretation of the '
+                     'string-building code (text-flow/taint with sanitiser '
+                     'set), sibling-path comparison, writer/reader/validator '
+                     'key agreement',
+    },
+    'C03': {
+        'text': 'Decides structural clauses of the TSV round trip: matrix '
+                'values are written with str() of the float (round-trip '
+                'safe) in both the streamed and returned forms of '
+                'delimited_self, the two forms build the same line '
+                'templates, the reader parses values with float and no '
+                'caller narrows it, to_tsv and `biom convert` forward the '
+                'header/formatter arguments, and the metadata formatter '
+                'registry is the inverse of the processing-function registry '
+                "on lists of text ('; '.join <-> split(';')+strip). The "
+                "reader's runtime heuristics (header detection, "
+                'last-column-is-metadata, number-like ids, gzip) are the '
+                'bulk of the property and are NOT decided.',
+        'note': 'Trusted: str(numpy.float64) is the shortest round-trip '
+                'representation; sa/emit.py.',
+        'technique': 'static analysis: abstract interpretation of the '
+                     'string-building code, argument-forwarding and registry '
+                     'agreement rules',
+    },
 }
